@@ -68,9 +68,9 @@ def isinstance_atom(ex, state, a, t):
         return z3.BoolVal(tn in KIND_TYPES[a.kind])
     if isinstance(a, VRef):
         o = ex.obj(state, a)
-        if o.kind == "list":
+        if o.kind in ("list", "ulist"):
             return z3.BoolVal(tn in ("list", "object"))
-        if o.kind == "dict":
+        if o.kind in ("dict", "udict"):
             return z3.BoolVal(tn in ("dict", "object", "Mapping"))
         if o.kind == "barray":
             return z3.BoolVal(tn in ("array", "object"))
@@ -111,6 +111,10 @@ def b_type(ex, state, args, kwargs, sv):
             o = ex.obj(state, a)
             if o.kind in ("list", "dict"):
                 return VClass(o.kind)
+            if o.kind == "ulist":
+                return VClass("list")
+            if o.kind == "udict":
+                return VClass("dict")
             if o.cls is not None:
                 return o.cls
         if isinstance(a, VOpaque):
@@ -1017,8 +1021,12 @@ def dict_has(ex, state, ref, k):
         try:
             ck = ex.const_key(ka)
         except Unsupported:
+            if getattr(o, "open", False):
+                raise Unsupported("untrusted dict asked for a key that is not a constant")
             res.append(z3.And(g, disj([ex.eq(state, ka, ex.const(c)) for c in o.d if not isinstance(c, tuple)])))
             continue
+        if getattr(o, "open", False) and ck not in o.d:
+            raise Unsupported("untrusted dict asked for the key %r, which its declared type does not list" % (ck,))
         pres = (getattr(o, "opt", None) or {}).get(ck)
         res.append(z3.And(g, pres if (ck in o.d and pres is not None) else z3.BoolVal(ck in o.d)))
     return simp(disj(res))
@@ -1039,6 +1047,8 @@ def dict_getitem(ex, state, ref, k):
     try:
         ck = ex.const_key(k)
     except Unsupported:
+        if getattr(o, "open", False):
+            raise Unsupported("untrusted dict asked for a key that is not a constant")
         # symbolic key against concrete key set
         alts = [(simp(ex.eq(state, k, ex.const(c))), v) for c, v in o.d.items() if not isinstance(c, tuple)]
         ex.raise_if(state, z3.Not(disj([g for g, _ in alts])), "KeyError")
@@ -1047,6 +1057,8 @@ def dict_getitem(ex, state, ref, k):
             raise _Abort()
         return mk_union(alts)
     if ck not in o.d:
+        if getattr(o, "open", False):
+            raise Unsupported("untrusted dict asked for the key %r, which its declared type does not list" % (ck,))
         ex.raise_if(state, z3.BoolVal(True), "KeyError")
     g = (getattr(o, "opt", None) or {}).get(ck)
     if g is not None:
@@ -1106,7 +1118,7 @@ def dict_delitem(ex, state, ref, k):
     del o.d[ck]
 
 
-@builtin("dict.get")
+@builtin("dict.get", "udict.get")
 def b_dict_get(ex, state, args, kwargs, sv):
     default = args[1] if len(args) > 1 else VNone
     has = dict_has(ex, state, sv, args[0])
@@ -1183,6 +1195,8 @@ def _dv(kind):
 
 for _k in ("keys", "values", "items"):
     BUILTINS["dict." + _k] = _dv(_k)
+# untrusted dict (type udict:): the keys view stands for the dict (iteration: loops.unroll, membership: dict_has)
+BUILTINS["udict.keys"] = lambda ex, state, args, kwargs, sv: sv
 
 
 @builtin("dict.update")
